@@ -44,7 +44,9 @@ def r18_1(ctx, rr):
         T = Walker(F, x)
         T.run()
         rr.instances += 1
-        rr.check(len(stores) == 1 and T.expand(T.T.term(stores[0]["i"])) == bucket, "%s:bucket" % nm, "%s must append the pair to buckets[bucket of its high bits]" % x.key, x.span)
+        # (the same place may be spelled more than once when it is first bound to a reference)
+        idx_terms = set(repr(T.expand(T.T.term(st_["i"]))) for st_ in stores)
+        rr.check(len(idx_terms) == 1 and T.expand(T.T.term(stores[0]["i"])) == bucket, "%s:bucket" % nm, "%s must append the pair to buckets[bucket of its high bits]" % x.key, x.span)
     # constructors
     for path in (r"^utils::sig_store::new_offline$", r"^utils::sig_store::new_online$"):
         c = F.one(path)
